@@ -20,7 +20,8 @@ TEXT = {
                         "[wideReenter], [wideExit, wideEnter]; every prong is compoActive[ci]; a write of compoActive lies between the exit and the enter "
                         "iff requested != active; the written value is compoRequested[ci]",
     "C01.ortho-all": "OS_<nonlast>::wideX calls Initial::deepX and Remaining::wideX exactly once on every path (Forward* variants may filter Initial "
-                     "by prongs.get(PRONG_INDEX) only); O_::deepX calls HeadState and SubStates members unconditionally",
+                     "by prongs.get(PRONG_INDEX) only; the reaction members may skip Remaining only on the path where control._consumed holds after "
+                     "Initial returned); O_::deepX calls HeadState and SubStates members unconditionally",
     "C01.no-invalid": "every value assigned to compoRequested in a C_ resolution function is INVALID-free: literal < INVALID, a resumable read guarded by "
                       "!= INVALID, Parent::prong registration data, user select() (precondition), a bounded loop index; a reachable INVALID literal in a "
                       "resolver's return is a violation",
@@ -184,6 +185,21 @@ FORWARD_PRONG = ("wideForwardEntryGuard", "wideForwardExitGuard", "wideForwardAc
 SKIP = ("wideGetNames",)
 
 
+REACTIONS = ("PreReact", "React", "PostReact", "Query")
+
+
+def _consumed_after_initial(F, p, stem):
+    """the path tests control._consumed after Initial::deep<stem> returned and takes the 'consumed' side"""
+    seen_initial = False
+    for ev in p:
+        if ev[0] == "call" and ev[2] is not None and F.fn(ev[2])["name"] == "deep" + stem:
+            seen_initial = True
+        if ev[0] == "assume" and seen_initial and "_consumed" in ev[2]:
+            from .C05 import consumed_test
+            return consumed_test(ev[2], bool(ev[3])) is True
+    return False
+
+
 def check_ortho_all(ctx, F):
     for fid, b in F.bodies.items():
         if not b["inst"] or b.get("cls") != "OS_" or F.spec(b.get("tid")) != "nonlast":
@@ -208,7 +224,9 @@ def check_ortho_all(ctx, F):
                         rem += 1
                     elif cf.get("cls") in ("S_", "C_", "O_") and cf["name"] == "deep" + stem:
                         ini += 1
-            if rem != 1:
+            if rem == 0 and stem in REACTIONS and ini == 1 and _consumed_after_initial(F, p, stem):
+                pass          # C05: a consumed event / query is not delivered to the remaining siblings (does not touch the configuration)
+            elif rem != 1:
                 bad = "Remaining::%s called %d times on a path" % (name, rem)
             if not filtered and ini != 1:
                 bad = "Initial::deep%s called %d times on a path" % (stem, ini)
